@@ -47,7 +47,8 @@ theorem closeClient_same (w : World) (i : Nat) :
     (closeClient w i).nbLost = w.nbLost ∧ (closeClient w i).recLost = w.recLost ∧
     (closeClient w i).shutLeft = w.shutLeft ∧ (closeClient w i).wsLostHs = w.wsLostHs ∧
     (closeClient w i).wsLostGone = w.wsLostGone ∧ (closeClient w i).extLost = w.extLost ∧
-    (closeClient w i).stray = w.stray ∧ (closeClient w i).extDataLost = w.extDataLost := by
+    (closeClient w i).stray = w.stray ∧ (closeClient w i).extDataLost = w.extDataLost ∧
+    (closeClient w i).extNodeLost = w.extNodeLost := by
   unfold closeClient
   cases w.conns[i]? with
   | none => simp
@@ -88,13 +89,13 @@ theorem inv_closeClient {v : Variant} {w : World} (h : Inv v w) (i : Nat) :
       · intro c _ _ hl; exact liveOk_closeRec c hl
       · intro c _ _ hd; exact deadOk_closeRec v c hd
       · intro c _; unfold closeRec; split <;> simp
-    obtain ⟨s1, s2, s3, s4, s5, s6, s7, s8, s9, s10⟩ := closeClient_same w i
+    obtain ⟨s1, s2, s3, s4, s5, s6, s7, s8, s9, s10, s11⟩ := closeClient_same w i
     have hcn := closeClient_conns w i c0 hc
     refine ⟨by simpa using hm.nodup, ?_, ?_, ?_, ?_, ?_, ?_, by rw [s1]; exact h.main, by rw [s2]; simpa using h.ptr⟩
     · intro j hj; rw [closeClient_length]; exact h.bound j (by simpa using hj)
     · intro j c hcj hj; rw [hcn] at hcj; exact hm.live j c hcj (by simpa using hj)
     · intro j c hcj hj; rw [hcn] at hcj; exact hm.dead j c hcj (by simpa using hj)
-    · unfold Counters; rw [s3, s4, s5, s6, s7, s8, s9, s10]; exact h.counters
+    · unfold Counters; rw [s3, s4, s5, s6, s7, s8, s9, s10, s11]; exact h.counters
     · intro s hs; rw [s1] at hs
       have := hm.refs s (by simpa using hs)
       simpa [owners, hcn] using this
@@ -160,7 +161,8 @@ theorem goneCore_counters (v : Variant) (w : World) (i : Nat) (c : Conn) :
     (goneCore v w i c).stray = w.stray + (if c.ftFd && !v.ftClose then 1 else 0) ∧
     (goneCore v w i c).extLost = w.extLost + (if v.extFree then 0 else c.exts) ∧
     (goneCore v w i c).extDataLost = w.extDataLost + (if c.extData && !v.goneExtClose then 1 else 0) ∧
-    (goneCore v w i c).ptrOwner = (if w.ptrOwner == some i then none else w.ptrOwner) := by
+    (goneCore v w i c).ptrOwner = (if w.ptrOwner == some i then none else w.ptrOwner) ∧
+    (goneCore v w i c).extNodeLost = w.extNodeLost := by
   unfold goneCore
   by_cases h1 : c.sockOpen = true <;> by_cases h2 : c.hooked = true <;> simp [h1, h2]
 
@@ -210,9 +212,9 @@ theorem inv_goneCore {v : Variant} {w : World} (h : Inv v w) (i : Nat) (c : Conn
       · simp [hw, hij] at hcj; subst hcj
         have : j ∉ w.list := fun hjl => hj ((hmem j).mpr ⟨Ne.symm hij, hjl⟩)
         exact h.dead j c0 hw this
-  · obtain ⟨c1, c2, c3, c4, c5, c6, c7, c8, _⟩ := goneCore_counters v w i c
-    obtain ⟨k1, k2, k3, k4, k5, k6, k7⟩ := h.counters
-    refine ⟨by rw [c1]; exact k1, by rw [c2, c3]; exact k2, ?_, by rw [c4]; exact k4, ?_, ?_, ?_⟩
+  · obtain ⟨c1, c2, c3, c4, c5, c6, c7, c8, _, c10⟩ := goneCore_counters v w i c
+    obtain ⟨k1, k2, k3, k4, k5, k6, k7, k8⟩ := h.counters
+    refine ⟨by rw [c1]; exact k1, by rw [c2, c3]; exact k2, ?_, by rw [c4]; exact k4, ?_, ?_, ?_, by rw [c10]; exact k8⟩
     · intro hv; rw [c5, k3 hv]; simp [hv]
     · intro hv; rw [c6, k5 hv]; simp [hv]
     · intro hv; rw [c7, k6 hv]; simp [hv]
@@ -243,7 +245,7 @@ theorem inv_goneCore {v : Variant} {w : World} (h : Inv v w) (i : Nat) (c : Conn
       · simp [hw, hij] at hcj; subst hcj; exact h.scr j c0 hw href
   · rw [goneCore_screens, hl.2.2.1]; simp only [if_true, hasScreen_decRef]; exact h.main
   · intro j hj
-    rw [(goneCore_counters v w i c).2.2.2.2.2.2.2.2] at hj
+    rw [(goneCore_counters v w i c).2.2.2.2.2.2.2.2.1] at hj
     by_cases hp : w.ptrOwner = some i
     · simp [hp] at hj
     · have hne : (w.ptrOwner == some i) = false := by simpa using hp
